@@ -721,6 +721,8 @@ Definition C18_holds (op impl : sval) : holds :=
         match p_packet pk, assoc "consistent" impl, assoc "final" impl with
         | Some p, Some c, Some f =>
             if negb (sval_eqb c (sbool true)) then HFail [SY "history_dependent"; tname p] else
+            if match assoc "backing" impl with Some b => negb (sval_eqb b (sbool true)) | None => false end
+            then HFail [SY "writes_outside_packet"; tname p] else
             match p_packet f with
             | Some pf => if packet_eqb pf p then HPass else HFail [SY "packet_modified"; tname p]
             | None => HFail [SY "malformed_observation"]
